@@ -60,6 +60,10 @@ impl Slot {
         let done = self.state.load(Relaxed) >> 34;
         self.state.store((done << 34) | FINISHED, Relaxed);
     }
+    /// (completed calls, current op id, status: 0 idle, 1 in non-blocking call, 2 in may-block call, 3 finished)
+    pub fn snapshot(&self) -> (u64, u32, u64) {
+        self.read()
+    }
     fn read(&self) -> (u64, u32, u64) {
         let v = self.state.load(Relaxed);
         (v >> 34, ((v >> 2) & 0xffff_ffff) as u32, v & 3)
